@@ -323,13 +323,22 @@ Inductive hop :=
 | HReq (rq : request)        (* a request followed by a sentinel request *)
 | HUnreg (p : N)
 | HHold                      (* the harness blocks every SendChunk from now on *)
-| HFlush.                    (* ... and releases them *)
+| HFlush                     (* ... and releases them *)
+| HRace (p : N) (reqs : list request) (pos : nat).
+    (* the two input channels of the reader raced for real: the harness blocks the reader inside
+       the ForEachItem callback of a blocker request, puts the requests [reqs] (each followed by
+       a sentinel), an unregistration of p and a last sentinel in flight, and releases the
+       reader; [pos] = how many entries of the request channel select took before it took the
+       unregistration (read off the implementation's log by the driver) *)
 
 (* sentinel: peer 0 opens session 0 at locator 0 once; a later request with Start = 1 is a
    selector mismatch whose Misbehaviour callback tells the harness that the reader has finished
    everything submitted before *)
 Definition sentinel_open : request := mkReq 0 0 0 0 1 1 1 0.
 Definition sentinel_ping : request := mkReq 0 0 1 1 1 1 0 0.
+
+Definition blocker_peer : N := 999999.
+Definition blocker_req (serial : N) : request := mkReq blocker_peer serial 0 0 1 1 1 0.
 
 (* reader steps until it is blocked or idle with empty channels *)
 Fixpoint sched_reader (fuel : nat) (v : variant) (cfg : config) (db : list item) (st : state)
@@ -374,6 +383,39 @@ Fixpoint sched_drain (fuel : nat) (v : variant) (cfg : config) (db : list item) 
 
 Definition drain_fuel : nat := 2000.
 
+(* after a race: the reader runs on; whenever it is in select with both channels non-empty it
+   takes a request while pos > 0 and the unregistration when pos = 0; sender workers deliver
+   whenever the reader is blocked, and at the end *)
+Fixpoint sched_race (fuel : nat) (pos : nat) (v : variant) (cfg : config) (db : list item) (st : state)
+  : list op * state :=
+  match fuel with
+  | O => ([], st)
+  | S f =>
+      let go (o : op) (pos' : nat) :=
+        match step v cfg db st o with
+        | Some (st', _) => let '(ops, st'') := sched_race f pos' v cfg db st' in (o :: ops, st'')
+        | None => ([], st)
+        end in
+      match st_reader st with
+      | RIdle =>
+          match st_chunreg st, st_chreq st with
+          | [], [] => sched_drain drain_fuel v cfg db st
+          | _ :: _, [] => go OReadUnreg pos
+          | [], _ :: _ => go OReadReq pos
+          | _ :: _, _ :: _ => match pos with O => go OReadUnreg O | S k => go OReadReq k end
+          end
+      | _ =>
+          match step v cfg db st OReader with
+          | Some (st', _) => let '(ops, st'') := sched_race f pos v cfg db st' in (OReader :: ops, st'')
+          | None =>
+              match first_busy 0 (st_senders st) with
+              | Some i => go (ODeliver i) pos
+              | None => ([], st)
+              end
+          end
+      end
+  end.
+
 Definition sched (v : variant) (cfg : config) (db : list item) (held : bool) (st : state) (h : hop)
   : list op * bool :=
   match h with
@@ -398,6 +440,14 @@ Definition sched (v : variant) (cfg : config) (db : list item) (held : bool) (st
         (ops0 ++ OUnregister p :: fst (sched_reader 200 v cfg db st1), false)
   | HHold => ([], true)
   | HFlush => (fst (sched_drain drain_fuel v cfg db st), false)
+  | HRace p reqs pos =>
+      let '(ops0, st0) := if held then sched_drain drain_fuel v cfg db st else ([], st) in
+      (* blocker taken by the reader, which stops inside ForEachItem (= before its RChunk step) *)
+      let pre := [ORequest (blocker_req (st_serial st0)); OReadReq; OReader]
+                 ++ flat_map (fun rq => [ORequest rq; ORequest sentinel_ping]) reqs
+                 ++ [OUnregister p; ORequest sentinel_ping] in
+      let st1 := fst (run v cfg db st0 pre) in
+      (ops0 ++ pre ++ fst (sched_race drain_fuel pos v cfg db st1), false)
   end.
 
 (* run harness operations; per operation the pending size afterwards is reported (the harness
